@@ -9,7 +9,7 @@ import os
 
 from vlib.core import REPO, AnalysisError, Report
 from vlib.guards import always_exits
-from vlib.match import FI, X, atoms, expand_use, has_call, nodes
+from vlib.match import FI, X, atoms, conjuncts, expand_use, has_call, nodes, path_conditions
 from vlib.srcindex import SourceIndex, attr_chain, const_str, unparse, walk_no_nested
 
 EXPLANATION = (
@@ -575,6 +575,8 @@ def run(rep: Report, tier: str) -> None:
 	rule_quote_escape(rep, tz)
 	rule_comment_end(rep, tz)
 	rule_indent_state(rep, tz, tk)
+	rule_indent_unit(rep, tz)
+	rule_lookahead_bounded(rep, tz)
 	rule_context_fresh(rep, tz)
 	rule_lexer_state(rep, idx)
 	rule_unary_minus(rep, idx)
@@ -962,7 +964,7 @@ def rule_unary_minus(rep: Report, idx: SourceIndex, rule_id: str = 'C13/unary-mi
 		r.skip('unary-decision', ps.where, 'parse_symbol no longer emits Token.op_unary_minus')
 		return
 	for c_ in sites:
-		conds = [(a, p_) for a, p_ in atoms(ps.node, c_) if 'TokenTypes.Minus' not in unparse(a)]
+		conds = [(a, p_) for a, p_ in atoms(ps.node, c_) if 'TokenTypes.Minus' not in unparse(a) and not _is_bounds(a)]
 		got: set[str] | None = set(everything)
 		for a, p_ in conds:
 			s_ = accepted(a if p_ else ast.UnaryOp(op=ast.Not(), operand=a), ps)
@@ -983,3 +985,144 @@ def _walk_tuple(t):
 		for x in t:
 			if isinstance(x, (tuple, list)):
 				yield from _walk_tuple(x)
+
+
+def rule_indent_unit(rep: Report, tz) -> None:
+	"""Context.to_nest learns the indent unit from the first width it sees. Every top-level statement follows a line break of width 0, so the unit must be
+	learnt only from a NON-ZERO width: each write of the unit is dominated by `width != 0` (an early return for 0 before it, or an enclosing test).
+	Otherwise the first top-level line fixes the unit (to 0: division by zero; clamped to 1: every column is a level, a 4-column block gets 1 INDENT and
+	4 DEDENTs)."""
+	r = rep.rule('C13/indent-unit-learnt-from-an-indented-line', 'in Tokenizer.Context.to_nest every write of the indent unit is dominated by the test that the measured width is not zero', floor=1)
+	f = tz.func('Tokenizer.Context.to_nest')
+	if f is None:
+		r.skip('to_nest', (TOKENIZER_PY, 1), 'Tokenizer.Context.to_nest vanished')
+		return
+	params = f.params()
+	if len(params) != 2:
+		r.skip('to_nest', f.where, 'to_nest no longer takes exactly the measured width')
+		return
+	w = params[1]
+	zero = {f'{w} == 0', f'0 == {w}', f'{w} <= 0', f'{w} < 1', f'not {w}'}
+	nonzero = {f'{w} > 0', f'0 < {w}', f'{w} != 0', f'0 != {w}', f'{w} >= 1', w}
+	# the unit: the self attribute the returned level divides by
+	divs = [n for n in ast.walk(f.node) if isinstance(n, ast.BinOp) and isinstance(n.op, (ast.Div, ast.FloorDiv)) and unparse(n.left) == w and isinstance(n.right, ast.Attribute)]
+	units = {unparse(n.right) for n in divs}
+	if len(units) != 1:
+		r.skip('to_nest', f.where, f'the level is not computed as {w} / <one attribute of the context>')
+		return
+	unit = units.pop()
+
+	def conj(t: ast.AST) -> list[str]:
+		return [unparse(v) for v in (t.values if isinstance(t, ast.BoolOp) and isinstance(t.op, ast.And) else [t])]
+
+	def disj(t: ast.AST) -> list[str]:
+		return [unparse(v) for v in (t.values if isinstance(t, ast.BoolOp) and isinstance(t.op, ast.Or) else [t])]
+
+	def visit(body: list[ast.stmt], guarded: bool) -> None:
+		for s_ in body:
+			if isinstance(s_, ast.If):
+				leaves = bool(s_.body) and isinstance(s_.body[-1], (ast.Return, ast.Raise))
+				visit(s_.body, guarded or bool(set(conj(s_.test)) & nonzero))
+				visit(s_.orelse, guarded or all(d in zero for d in disj(s_.test)))
+				if leaves and not s_.orelse and all(d in zero or d in disj(s_.test) for d in disj(s_.test)) and set(disj(s_.test)) & zero:
+					guarded = True  # `if width == 0 [or ...]: return` — afterwards the width is non-zero
+			elif isinstance(s_, (ast.Assign, ast.AnnAssign, ast.AugAssign)):
+				tgts = s_.targets if isinstance(s_, ast.Assign) else [s_.target]
+				if any(unparse(t) == unit for t in tgts):
+					r.check(guarded, f'unit-write:{unparse(s_)[:50]}', (TOKENIZER_PY, s_.lineno), f'`{unparse(s_)[:80]}` can execute with {w} == 0: the first line break followed by a top-level statement (width 0) then fixes the indent unit — 0 divides by zero, a clamp to 1 makes every column a level, so a block indented by 4 columns (or one tab after a 0-width line) opens 1 INDENT and closes 4 DEDENTs and the module no longer parses or nests differently', unparse(s_)[:100])
+			elif isinstance(s_, (ast.For, ast.While, ast.With, ast.Try)):
+				for fld in ('body', 'orelse', 'finalbody'):
+					visit(getattr(s_, fld, []) or [], guarded)
+				for h in getattr(s_, 'handlers', []) or []:
+					visit(h.body, guarded)
+
+	visit(f.node.body, False)
+
+
+def rule_lookahead_bounded(rep: Report, tz) -> None:
+	"""The lexer is handed a position that exists (begin < len(source)); every character it reads AHEAD of that position — `source[begin + k]`, the loop
+	cursor of a scan, the position handed to an analyze_* helper (each reads source[<its position>]) — has to be preceded by the test that the
+	position is still inside the source, or a source that ends right there (a file without a final newline ending in `-`) raises IndexError instead of
+	producing tokens. Decided on the linear form of the index and of the comparisons known at the read (enclosing while / if tests, earlier operands
+	of the same `and`, earlier exits)."""
+	from vlib.linear import linear
+	r = rep.rule('C13/lookahead-reads-are-bounded', 'in Lexer every read of source[e] (or analyze_*(source, e)) with e ahead of the position parameter is dominated by a comparison that implies e < len(source)', floor=2)
+	lx = tz.cls('Lexer')
+	if lx is None:
+		r.skip('Lexer', (TOKENIZER_PY, 1), 'class Lexer vanished')
+		return
+	n_base = 0
+	for defs_ in lx.methods.values():
+		for f in defs_:
+			params = f.params()
+			if 'source' not in params:
+				continue
+			pos = params[params.index('source') + 1] if params.index('source') + 1 < len(params) else None
+
+			def single(name: str) -> ast.AST | None:
+				stores = [s for s in ast.walk(f.node) if isinstance(s, ast.Name) and s.id == name and isinstance(s.ctx, ast.Store)]
+				defs2 = [a for a in ast.walk(f.node) if isinstance(a, ast.Assign) and len(a.targets) == 1 and isinstance(a.targets[0], ast.Name) and a.targets[0].id == name]
+				augs = [a for a in ast.walk(f.node) if isinstance(a, ast.AugAssign) and isinstance(a.target, ast.Name) and a.target.id == name]
+				return defs2[0].value if len(stores) == 1 and len(defs2) == 1 and not augs else None
+
+			def lin(e: ast.AST, depth: int = 0):
+				terms, const = linear(e)
+				out: dict[str, int] = {}
+				for a, k in terms.items():
+					v = single(a) if a.isidentifier() and depth < 3 else None
+					if v is not None:
+						t2, c2 = lin(v, depth + 1)
+						for a2, k2 in t2.items():
+							out[a2] = out.get(a2, 0) + k * k2
+						const += k * c2
+					else:
+						out[a] = out.get(a, 0) + k
+				return {a: k for a, k in out.items() if k}, const
+
+			sites: list[tuple[ast.AST, ast.AST]] = []
+			for n in walk_no_nested(f.node):
+				if isinstance(n, ast.Subscript) and isinstance(n.ctx, ast.Load) and unparse(n.value) == 'source' and not isinstance(n.slice, ast.Slice):
+					sites.append((n, n.slice))
+				elif isinstance(n, ast.Call) and isinstance(n.func, ast.Attribute) and n.func.attr.startswith('analyze_') and len(n.args) == 2 and unparse(n.args[0]) == 'source':
+					sites.append((n, n.args[1]))
+			for node, e in sites:
+				terms, const = lin(e)
+				if terms == {pos: 1} and const == 0:
+					n_base += 1
+					continue  # the position itself: the caller's obligation (Lexer.parse loops `while index < len(source)`)
+				if not (len(terms) == 1 and list(terms.values()) == [1] and next(iter(terms)).isidentifier() and const >= 0):
+					continue  # not a forward read from a cursor (`source[index - 1 - escapes]` looks BEHIND a position that was found in the source)
+				# target: e - len(source) + 1 <= 0
+				tgt = dict(terms)
+				tgt['len(source)'] = tgt.get('len(source)', 0) - 1
+				tgt = {a: k for a, k in tgt.items() if k}
+				tconst = const + 1
+				implied = False
+				for cnd, pol in path_conditions(f.node, node):
+					for a_, p_ in conjuncts(cnd, pol):
+						if not (isinstance(a_, ast.Compare) and len(a_.ops) == 1):
+							continue
+						op = type(a_.ops[0])
+						lt_, lc_ = lin(a_.left)
+						rt_, rc_ = lin(a_.comparators[0])
+						d = {k: lt_.get(k, 0) - rt_.get(k, 0) for k in set(lt_) | set(rt_)}
+						d = {k: v for k, v in d.items() if v}
+						dc = lc_ - rc_
+						# normalise to G <= 0
+						if not p_:
+							op = {ast.Lt: ast.GtE, ast.LtE: ast.Gt, ast.Gt: ast.LtE, ast.GtE: ast.Lt}.get(op)
+						if op is ast.Lt:
+							g, gc = d, dc + 1
+						elif op is ast.LtE:
+							g, gc = d, dc
+						elif op is ast.Gt:
+							g, gc = {k: -v for k, v in d.items()}, -dc + 1
+						elif op is ast.GtE:
+							g, gc = {k: -v for k, v in d.items()}, -dc
+						else:
+							continue
+						if g == tgt and tconst <= gc:
+							implied = True
+				key = f'{f.name}:{unparse(node)[:50]}'
+				r.check(implied, key, (TOKENIZER_PY, node.lineno), f'`{unparse(node)[:70]}` reads the source at `{unparse(e)}` (= {terms} + {const}), ahead of the position the lexer was handed, and nothing known at that point implies it is < len(source): a source that ends there — `a -` or a lone `-` without a final newline for the sign test of parse_symbol — raises IndexError out of Tokenizer.parse instead of yielding the tokens CPython yields', unparse(node)[:100])
+	rep.extra_coverage['lexer_reads_at_the_given_position'] = n_base
